@@ -370,27 +370,6 @@ theorem placed_zeros (f : FrameSpec K) (hwf : Spec.WF f) (nd : Nat) (cs : AtomSp
   simp only [zeros]
   rw [foldl_set_replicate _ _ _ _ (wf_nodup f hwf) hp, foldl_set_replicate _ _ _ _ (wf_nodup f hwf) hp]
 
-/-- positions agree as soon as the per-line right-hand side is the Spec's Cartesian row -/
-theorem pos_congr (f : FrameSpec K) (nd : Nat) (cs : AtomSpec K → List K)
-    (h : ∀ a, cs a = (List.range nd).map (Spec.cart nd f a)) :
-    ((List.range f.atoms.length).map fun k => Spec.atId f.atoms k cs (List.replicate nd 0))
-      = (Spec.expected nd f).positions := by
-  have : cs = fun a => (List.range nd).map (Spec.cart nd f a) := funext h
-  subst this
-  rfl
-
-
-theorem pos_wrap (f : FrameSpec K) (hwf : Spec.WF f) (nd : Nat) (cs : AtomSpec K → List K) (w : List K → List K)
-    (h : ∀ a, w (cs a) = (List.range nd).map (Spec.cart nd f a)) :
-    ((List.range f.atoms.length).map fun k => Spec.atId f.atoms k cs (List.replicate nd 0)).map w
-      = (Spec.expected nd f).positions := by
-  unfold Spec.expected
-  simp only [List.map_map]
-  apply List.map_congr_left
-  intro k hk
-  obtain ⟨a, _, _, ha⟩ := byId_some f hwf k (List.mem_range.mp hk)
-  simp [Spec.atId, ha, h]
-
 theorem atId_congr {β : Type} (atoms : List (AtomSpec K)) (k : Nat) (g g' : AtomSpec K → β) (d : β)
     (h : ∀ a, g a = g' a) : Spec.atId atoms k g d = Spec.atId atoms k g' d := by
   rw [show g = g' from funext h]
